@@ -5,10 +5,20 @@
 #include "nmtools/array/index/pad.hpp"
 #include "nmtools/array/index/concatenate.hpp"
 #include "nmtools/array/index/repeat.hpp"
+#include "nmtools/array/index/take.hpp"
+#include "nmtools/array/index/resize.hpp"
+#include "nmtools/array/view/expand.hpp"
+#include "nmtools/array/view/diagonal.hpp"
+#include "nmtools/array/view/tril.hpp"
+#include "nmtools/array/view/triu.hpp"
+#include "nmtools/array/view/eye.hpp"
+#include "nmtools/array/view/tri.hpp"
 
 namespace nm = nmtools;
 namespace ix = nmtools::index;
 using sv_t = nmtools::utl::static_vector<nm_size_t,8>;
+using iv_t = nmtools::utl::static_vector<int,8>;
+using sv7_t = nmtools::utl::static_vector<nm_size_t,7>;
 using opt_sv_t = nmtools_maybe<sv_t>;
 using hn_t = nmtools::array::hybrid_ndarray<nm_size_t,8,1>;
 using scat_t = nmtools_tuple<bool,sv_t>;
@@ -34,3 +44,26 @@ auto verif_concatenate(sv_t ashape, sv_t bshape, sv_t idx, int axis) { return ix
 // ---- repeat (scalar repeats, integer axis): view::repeat_t
 auto verif_shape_repeat(sv_t shape, nm_size_t repeats, int axis) { return ix::shape_repeat(shape,repeats,axis); }
 auto verif_repeat(sv_t shape, sv_t idx, nm_size_t repeats, int axis) { return ix::repeat(shape,idx,repeats,axis); }
+
+// ---- take (1-d index list incl. negative entries, integer axis): view::take_t::index
+auto verif_shape_take(sv_t shape, iv_t indices, int axis) { return ix::shape_take(shape,indices,axis); }
+auto verif_take(sv_t idx, sv_t shape, iv_t indices, int axis) { return ix::take(idx,shape,indices,axis); }
+
+// ---- resize (nearest neighbour): view::resize_t
+auto verif_shape_resize(sv_t src_shape, sv_t dst_shape) { return ix::shape_resize(src_shape,dst_shape); }
+auto verif_resize(sv_t idx, sv_t src_shape, sv_t dst_shape) { return ix::resize(idx,src_shape,dst_shape); }
+
+// ---- expand: shape (index::expand returns nmtools_either = std::variant: no C model)
+auto verif_shape_expand(sv_t shape, int axis, nm_size_t spacing) { return ix::shape_expand(shape,axis,spacing); }
+
+// ---- diagonal: view::diagonal_indexer passes raw axes to shape_diagonal, normalised (unsigned) axes + raw offset to index::diagonal
+auto verif_shape_diagonal(sv_t shape, int offset, int axis1, int axis2) { return ix::shape_diagonal(shape,offset,axis1,axis2); }
+auto verif_diagonal(sv_t shape, sv_t idx, int offset, unsigned axis1, unsigned axis2) { return ix::diagonal(shape,idx,offset,axis1,axis2); }
+
+// ---- tril / triu / eye / tri
+auto verif_shape_tril(sv_t shape) { return ix::shape_tril(shape); }
+auto verif_tril(sv_t shape, sv_t idx, int k) { return ix::tril(shape,idx,k); }
+auto verif_shape_triu(sv_t shape) { return ix::shape_triu(shape); }
+auto verif_triu(sv_t shape, sv_t idx, int k) { return ix::triu(shape,idx,k); }
+auto verif_eye(sv_t shape, sv_t idx, int k) { return ix::eye(shape,idx,k); }
+auto verif_tri(sv_t shape, sv_t idx, int k) { return ix::tri(shape,idx,k); }
